@@ -72,7 +72,10 @@ func c15a(c *Ctx) {
 		"a mirror checkpoint can be signed although entries below its size were never uploaded")
 	c.guardSuccess(f, "checkpoint >= mirror checkpoint", g.EdgesImplying(func(a Atom) bool { rel, ok := cmpRel(a, fld(pend, "N"), fld(mirr, "N")); return ok && rel&relLT == 0 }), okRets,
 		"the mirror checkpoint can move backwards")
-	c.guardSuccess(f, "mirror state is this origin's", g.EdgesImplying(func(a Atom) bool { rel, ok := cmpRel(a, fld(pend, "Origin"), fld(mirr, "Origin")); return ok && rel == relEQ }), okRets,
+	c.guardSuccess(f, "mirror state is this origin's", g.EdgesImplying(func(a Atom) bool {
+		rel, ok := cmpRel(a, fld(pend, "Origin"), fld(mirr, "Origin"))
+		return ok && rel == relEQ
+	}), okRets,
 		"a checkpoint of one log can be committed against the mirror state of another")
 	ect := f.Calls(Callee{pkgWitness, "Witness", "ensureCutTiles"})
 	c.requireGate(f.Name+" cut tiles ensured", f, ect, OutNil, okRets, "signature only after the partial tiles cut at the checkpoint size exist")
